@@ -375,6 +375,11 @@ pub(super) fn execute_order_by<'a, S: GraphSnapshot + 'a>(
         if let Err(err) = params.check_timeout("OrderBy.collect") {
             return PlanIterator::Dynamic(Box::new(std::iter::once(Err(err))));
         }
+        // a failing input row (runtime error, resource limit) ends the query: do not keep
+        // pulling and buffering the rest of the input behind it
+        if item.is_err() {
+            return PlanIterator::Dynamic(Box::new(std::iter::once(item)));
+        }
         rows.push(item);
         if let Err(err) = params.check_collection_size("OrderBy.collect", rows.len()) {
             return PlanIterator::Dynamic(Box::new(std::iter::once(Err(err))));
